@@ -15,7 +15,7 @@ from harness.lib import GEN, VERIF, Finding, PropertyCheck, TranslateError, run_
 from translate import astutil, tr_transfer
 
 DRIVER = Path(__file__).with_name("c23_driver.py")
-KINDS = ["fan", "twice", "files", "apply", "chain", "caught", "mix", "boom"]
+KINDS = ["fan", "twice", "files", "inline", "apply", "chain", "caught", "mix", "boom"]
 
 K_REORDER = "transfer:call:child-edges-reordered"
 K_CACHE = "cache:transferred-node-served-but-source-refuses"
@@ -235,7 +235,9 @@ def gen_scenarios(rng, count):
             tag_ops("b", nb, 2, setup)
             steps.append({"method": "pull", "src": "a", "dst": "b"})
             steps.append({"method": "push", "src": "b", "dst": "a"})
-            steps.append({"method": "pull", "src": "a", "dst": "b", "roots": some})
+            # (`redun pull REPO ids` resolves the ids in the *local* repository, so selected roots
+            #  are only usable with push and export)
+            steps.append({"method": "export", "src": "a", "dst": "b", "roots": some})
         elif ty == 2:
             steps.append({"method": "export", "src": "a", "dst": "b", "roots": some})
             steps.append({"method": "export", "src": "a", "dst": "b"})
@@ -244,7 +246,7 @@ def gen_scenarios(rng, count):
             for _ in range(3):
                 m = rng.choice(["push", "pull", "export"])
                 steps.append({"method": m, "src": "a", "dst": "b",
-                              **({"roots": [["exec", rng.randrange(na)]]} if rng.random() < 0.5 else {})})
+                              **({"roots": [["exec", rng.randrange(na)]]} if m != "pull" and rng.random() < 0.5 else {})})
                 if rng.random() < 0.6:
                     tag_ops("a", na, 2, steps)
         out.append({"repos": repos, "setup": setup, "steps": steps, "e2e": k == 0})
@@ -267,6 +269,42 @@ def run_driver(spec, timeout=600):
 
 
 # ------------------------------------------------------------------ the implementation oracle
+def reachable(src, roots):
+    """Closure of the roots under: execution -> root job; job -> task, call node, child jobs;
+    call node -> task, result, argument values, upstream call nodes, child call nodes;
+    value -> subvalues; tag <-> its edits (parents and children); any record -> its tags."""
+    child_jobs, child_tags, ent_tags = defaultdict(list), defaultdict(list), defaultdict(list)
+    for i, e in src.items():
+        if e[0] == "job" and e[6] is not None:
+            child_jobs[e[6]].append(i)
+        if e[0] == "tag":
+            ent_tags[e[2]].append(i)
+            for p in e[5]:
+                child_tags[p].append(i)
+    seen = set()
+    todo = [r for r in roots if r in src]
+    while todo:
+        i = todo.pop()
+        if i in seen:
+            continue
+        seen.add(i)
+        nxt = list(ent_tags.get(i, [])) + list(child_jobs.get(i, [])) + list(child_tags.get(i, []))
+        e = src.get(i)
+        if e is not None:
+            if e[0] == "exec":
+                nxt.append(e[2])
+            elif e[0] == "job":
+                nxt += [e[3], e[5]]            # parent_id / execution_id are not ownership edges
+            elif e[0] == "call":
+                nxt += [e[2], e[4]] + [c for _, c in e[6]] + [x for a, v, p, k, up in e[7] for x in (v,) + tuple(up)]
+            elif e[0] == "value":
+                nxt += list(e[4])
+            else:
+                nxt += list(e[5])              # entity_id is not an ownership edge
+        todo += [x for x in nxt if x is not None]
+    return {i for i in seen if i in src}
+
+
 def judge_step(rec):
     """Decide the property for one transfer, from the dumps alone. -> [(key, what, detail)]"""
     out = []
@@ -278,6 +316,8 @@ def judge_step(rec):
     for an in (an_s, an_b, an_a):
         for a in an[:3]:
             out.append(("dump:" + a.split(" ")[0], f"{tagm}: {a}", {}))
+    if rec.get("iter_error"):
+        out.append(("walk:raised", f"{tagm}: iter_record_ids raised {rec['iter_error']}", {}))
     if rec.get("error") or rec.get("error2"):
         out.append((f"transfer:raised:{st['method']}", f"{tagm}: the command raised {rec.get('error') or rec.get('error2')}", {}))
         return out
@@ -285,6 +325,16 @@ def judge_step(rec):
     Tset = set(T)
     if len(T) != len(Tset):
         out.append(("walk:duplicate-id", f"{tagm}: iter_record_ids yields an id twice", {}))
+    # the reachable set, computed independently from the ownership edges the property names
+    want = reachable(src, rec["walk_roots"])
+    for i in sorted(want - Tset)[:3]:
+        out.append((f"walk:{src[i][0]}:not-visited", f"{tagm}: {src[i][0]} record {i} is reachable from the roots but "
+                                                    "iter_record_ids does not yield it", {"id": i}))
+    for i in sorted(Tset - want)[:3]:
+        out.append((f"walk:{src[i][0]}:unreachable-visited", f"{tagm}: iter_record_ids yields {src[i][0]} record {i} "
+                                                            "which is not reachable from the roots", {"id": i}))
+    T = sorted(want | Tset)
+    Tset = set(T)
     src_children = defaultdict(set)
     for i, e in src.items():
         if e[0] == "tag":
@@ -381,6 +431,10 @@ class Check(PropertyCheck):
         self.info = info
         GEN.mkdir(exist_ok=True)
         p = GEN / "C23Gen.v"
+        for ext in (".vo", ".vos", ".vok", ".glob"):       # never run the model under a stale configuration
+            q = p.with_suffix(ext)
+            if q.exists():
+                q.unlink()
         p.write_text(text)
         return [p]
 
@@ -522,9 +576,38 @@ class Check(PropertyCheck):
                 self.findings.append(Finding(key, what, {"spec": out["spec"], "key": key, "detail": detail}))
         self.evaluations += nsteps
         self.stat("oracle", "transfers_judged", nsteps)
+        known = {k["key"] for k in lib.load_known_findings() if k.get("property") == self.id}
+        new = [f for f in self.findings if f.key not in known]
         self.ob("oracle", f"implementation oracle (whole-graph equality on the transferred records, nothing extra, counts, "
-                          f"repeat is a no-op, tag status, shallow-cache probes, end-to-end re-run) on {nsteps} real transfers",
-                not self.findings, "; ".join(f.what for f in self.findings[:5]))
+                          f"repeat is a no-op, tag status, shallow-cache probes, end-to-end re-run) on {nsteps} real transfers: "
+                          f"nothing beyond the registered known findings",
+                not new, "; ".join(f.what for f in new[:5]))
+        # the extracted variant must agree with what the real code was seen to do
+        if getattr(self, "info", None):
+            seen_keys = {f.key for f in self.findings}
+            exp_reorder = self.info["child_order"] == "DbIndexOrder"
+            exp_cache = not (self.info["require_own"] or self.info["carry_subtree"])
+            self.ob("variant", "child-edge order: extracted variant "
+                               f"({self.info['child_order']}) agrees with the behaviour observed on the real transfers",
+                    (K_REORDER in seen_keys) == exp_reorder or (exp_reorder and not self.reorder_possible(outs)),
+                    f"translator says {self.info['child_order']}, oracle {'saw' if K_REORDER in seen_keys else 'did not see'} reordered children")
+            self.ob("variant", f"shallow cache: extracted variant (require_own={self.info['require_own']}) agrees with the "
+                               "behaviour observed on the real transfers",
+                    ((K_CACHE in seen_keys) or (K_E2E in seen_keys)) == exp_cache,
+                    f"translator says require_own={self.info['require_own']}, oracle findings {sorted(seen_keys)}")
+
+    @staticmethod
+    def reorder_possible(outs):
+        """Is there a transferred call node whose call order differs from hash order?"""
+        for out in outs:
+            for rec in out["steps"]:
+                src, _ = bundle(rec["src"])
+                for e in src.values():
+                    if e[0] == "call":
+                        cs = [c for _, c in e[6]]
+                        if cs != sorted(cs):
+                            return True
+        return False
 
     def replay(self, doc):
         r = doc.get("replay", {})
@@ -542,4 +625,6 @@ class Check(PropertyCheck):
             print("replay:", key, "--", what)
         if not found:
             print("replay: property holds on this scenario now")
-        return 1 if (same or found) else 0
+        if r.get("key"):
+            return 1 if same else 0
+        return 1 if found else 0
